@@ -11,10 +11,15 @@ RULE = ("valid texts from the C01 generator and a malformed stream (mutated byte
         "multi-byte characters), every 2-partition for texts up to 48 bytes and random 2..4-partitions beyond, flags over "
         "{strict, allow-trailing, validate-utf8}; non-trivial = at least one call returned continue; distinct by (text, cuts, flags)")
 ASSUMPTIONS = ["only calls after a `continue` status are compared (the property's premise)"]
-LEVEL_TEXT = ("Theorems about the tokener model: the per-call loop is a fold, so a split parse equals the whole parse whenever the call-locals "
-              "re-initialised at the split agree with the values the unsplit run holds there (chunk_independent_partial, with the guard stated); "
-              "the known UTF-8 validation refutation carries its witness.  The direct oracle replays split-vs-whole on the real library for every generated partition.")
-LEVEL_NOTE = "Partial: the UTF-8 validation counter is a call-local in C (known finding); model tied to the C code by sampled differential execution."
+LEVEL_TEXT = ("Theorems (Coq, no axioms): chunk_independent — for ALL byte strings a and b (valid or not), all well-formed parser states and all flag "
+              "settings without UTF-8 validation, when the call on a reports that more input is needed the call on b yields the same value, status and error "
+              "code as the single call on a ++ b, with the end position counted from the start of a; chunks_independent — the same for any number of calls, by "
+              "induction on the chunk list.  Proved through a simulation showing that the call-locals re-initialised at every call (current character, pending "
+              "child, number-scanner flags) are dead or re-derived exactly from the saved text, and that one dispatch never reads the character offset.  The "
+              "direct oracle replays split-vs-whole (and chunked streams of several documents) on the real library for every generated partition.")
+LEVEL_NOTE = ("With VALIDATE_UTF8 the theorem needs the split on a character boundary (the continuation counter is a call-local; a call that ends inside a "
+              "multi-byte character reports a UTF-8 error, not 'continue', so the property's premise fails there: C03_utf8_split_first_call_errors).  Streams of "
+              "several documents are covered by the correspondence and the oracle, not by a theorem.  Model tied to the C code by sampled differential execution.")
 
 
 def chunk_ops(t, cuts):
